@@ -6,6 +6,7 @@ deletion).  Plan: DESIGN.md Appendix A.1.  Cyclic distance is piecewise
 -/
 set_option linter.unusedSectionVars false
 set_option linter.unusedVariables false
+set_option linter.unusedSimpArgs false
 
 namespace SdnsVerif.Lemmas.UMap
 open SdnsVerif.Model.UMap
@@ -1631,5 +1632,716 @@ theorem evict_progress {idx : Nat → Nat → Nat} (hidx : IdxOk idx) {m : UMap 
   have heq := (evict_spec hidx inv offset n skip).2.2.2.1 h0
   have := evict_complete hidx inv offset n skip (by omega) k (by rw [heq]; exact hp)
   exact hk this
+
+
+/-! ### the segmented table -/
+
+/-- the mixers stay in range -/
+structure HashOk (H : Hashes) : Prop where
+  idx : IdxOk H.idx
+  seg : ∀ n k, 0 < n → H.seg n k < n
+
+/-- sum of the per-segment sizes -/
+def total (m : SegMap V) : Int := (m.segs.toList.map (fun s => (s.size : Int))).sum
+
+/-- abstraction of the segmented table: the key's home segment decides -/
+def sabs (H : Hashes) (m : SegMap V) (k : Nat) : Option V := abs (m.segAt (SegMap.segOf H m k)) k
+
+structure SegInv (H : Hashes) (m : SegMap V) : Prop where
+  nseg : 0 < m.segs.size
+  segs : ∀ i, i < m.segs.size → Inv H.idx (m.segAt i)
+  /-- a segment only holds keys that hash to it -/
+  home : ∀ i, i < m.segs.size → ∀ k, abs (m.segAt i) k ≠ none → H.seg m.segs.size k = i
+  /-- the atomic counter equals the number of stored entries -/
+  count : m.count = total m
+
+theorem segAt_set (m : SegMap V) (i j : Nat) (s : UMap V) (c : Int) :
+    SegMap.segAt { segs := m.segs.setIfInBounds i s, count := c } j =
+      if i = j ∧ i < m.segs.size then s else m.segAt j := by
+  simp only [SegMap.segAt, Array.getD_eq_getD_getElem?, Array.getElem?_setIfInBounds]
+  grind
+
+theorem sum_set (l : List (UMap V)) (i : Nat) (s : UMap V) (h : i < l.length) :
+    ((l.set i s).map (fun s => (s.size : Int))).sum =
+      (l.map (fun s => (s.size : Int))).sum - (l[i].size : Int) + (s.size : Int) := by
+  induction l generalizing i with
+  | nil => simp at h
+  | cons x t ih =>
+    cases i with
+    | zero => simp only [List.set_cons_zero, List.map_cons, List.sum_cons, List.getElem_cons_zero]; omega
+    | succ i =>
+      simp only [List.set_cons_succ, List.map_cons, List.sum_cons, List.getElem_cons_succ]
+      rw [ih i (by simpa using h)]
+      omega
+
+theorem segAt_eq_getElem (m : SegMap V) (i : Nat) (h : i < m.segs.size) : m.segAt i = m.segs[i] := by
+  simp [SegMap.segAt, Array.getD_eq_getD_getElem?, h]
+
+theorem total_set (m : SegMap V) (i : Nat) (s : UMap V) (c : Int) (h : i < m.segs.size) :
+    total { segs := m.segs.setIfInBounds i s, count := c } = total m - ((m.segAt i).size : Int) + (s.size : Int) := by
+  unfold total
+  simp only [Array.toList_setIfInBounds]
+  rw [sum_set _ i s (by simpa using h), segAt_eq_getElem m i h]
+  simp
+
+/-- replacing one segment by a table that still only holds its own keys -/
+theorem seginv_set {H : Hashes} {m : SegMap V} (inv : SegInv H m) (i : Nat) (hi : i < m.segs.size)
+    (s : UMap V) (c : Int) (hs : Inv H.idx s)
+    (hhome : ∀ k, abs s k ≠ none → H.seg m.segs.size k = i)
+    (hc : c = m.count - ((m.segAt i).size : Int) + (s.size : Int)) :
+    SegInv H { segs := m.segs.setIfInBounds i s, count := c } := by
+  have hsz : ({ segs := m.segs.setIfInBounds i s, count := c } : SegMap V).segs.size = m.segs.size := by simp
+  refine ⟨by rw [hsz]; exact inv.nseg, ?_, ?_, ?_⟩
+  · intro j hj
+    rw [hsz] at hj
+    rw [segAt_set]
+    split
+    · exact hs
+    · exact inv.segs j hj
+  · intro j hj k hk
+    rw [hsz] at hj ⊢
+    rw [segAt_set] at hk
+    split at hk
+    · rename_i h; rw [← h.1]; exact hhome k hk
+    · exact inv.home j hj k hk
+  · rw [total_set m i s c hi, ← inv.count]; exact hc
+
+theorem sabs_set {H : Hashes} (m : SegMap V) (i : Nat) (hi : i < m.segs.size) (s : UMap V) (c : Int) (k : Nat) :
+    sabs H { segs := m.segs.setIfInBounds i s, count := c } k =
+      if SegMap.segOf H m k = i then abs s k else sabs H m k := by
+  unfold sabs SegMap.segOf
+  simp only [Array.size_setIfInBounds]
+  rw [segAt_set]
+  by_cases h : H.seg m.segs.size k = i
+  · rw [if_pos h, if_pos ⟨h.symm, hi⟩]
+  · rw [if_neg h, if_neg (by intro h'; exact h h'.1.symm)]
+
+theorem segOf_lt {H : Hashes} (hH : HashOk H) {m : SegMap V} (inv : SegInv H m) (k : Nat) :
+    SegMap.segOf H m k < m.segs.size := hH.seg _ k inv.nseg
+
+theorem home' {H : Hashes} {m : SegMap V} (inv : SegInv H m) (i : Nat) (hi : i < m.segs.size) (k : Nat)
+    (hk : abs (m.segAt i) k ≠ none) : SegMap.segOf H m k = i := inv.home i hi k hk
+
+theorem seg_get_eq {H : Hashes} (hH : HashOk H) {m : SegMap V} (inv : SegInv H m) (k : Nat) :
+    m.get H k = sabs H m k := by
+  unfold SegMap.get sabs
+  exact get_eq_abs hH.idx (inv.segs _ (segOf_lt hH inv k)) k
+
+/-- **`Set`** is the abstract update and counts a new key exactly once. -/
+theorem seg_set_spec {H : Hashes} (hH : HashOk H) {m : SegMap V} (inv : SegInv H m) (k : Nat) (v : V) :
+    SegInv H (m.set H k v) ∧ (∀ k', sabs H (m.set H k v) k' = if k' = k then some v else sabs H m k') ∧
+    (m.set H k v).count = m.count + (if (sabs H m k).isSome then 0 else 1) := by
+  have hi := segOf_lt hH inv k
+  obtain ⟨p1, p2, p3⟩ := put_spec hH.idx (inv.segs _ hi) k v
+  have hcount : (m.set H k v).count = m.count + (if (sabs H m k).isSome then 0 else 1) := by
+    show (if ((m.segAt (SegMap.segOf H m k)).put H.idx k v).len > (m.segAt (SegMap.segOf H m k)).len then m.count + 1 else m.count) = _
+    unfold UMap.len sabs
+    rw [p3]
+    split <;> split <;> omega
+  refine ⟨?_, ?_, hcount⟩
+  · apply seginv_set inv _ hi _ _ p1
+    · intro k' hk'
+      rw [p2 k'] at hk'
+      by_cases h : k' = k
+      · rw [h]; rfl
+      · rw [if_neg h] at hk'; exact inv.home _ hi k' hk'
+    · refine hcount.trans ?_
+      unfold sabs
+      rw [p3]
+      split <;> omega
+  · intro k'
+    show sabs H { segs := m.segs.setIfInBounds (SegMap.segOf H m k) _, count := _ } k' = _
+    rw [sabs_set m _ hi]
+    by_cases hk' : k' = k
+    · rw [if_pos hk', hk', if_pos rfl, p2 k, if_pos rfl]
+    · rw [if_neg hk']
+      split
+      · rename_i h
+        rw [p2 k', if_neg hk']
+        unfold sabs; rw [h]
+      · rfl
+
+/-- **`Del`** is the abstract erase and uncounts exactly a stored key. -/
+theorem seg_del_spec {H : Hashes} (hH : HashOk H) {m : SegMap V} (inv : SegInv H m) (k : Nat) :
+    SegInv H (m.del H k).1 ∧ (∀ k', sabs H (m.del H k).1 k' = if k' = k then none else sabs H m k') ∧
+    (m.del H k).2 = (sabs H m k).isSome ∧
+    (m.del H k).1.count = m.count - (if (sabs H m k).isSome then 1 else 0) := by
+  have hi := segOf_lt hH inv k
+  obtain ⟨p1, p2, p3, p4⟩ := del_spec hH.idx (inv.segs _ hi) k
+  have hcount : (m.del H k).1.count = m.count - (if (sabs H m k).isSome then 1 else 0) := by
+    show (if ((m.segAt (SegMap.segOf H m k)).del H.idx k).2 then m.count - 1 else m.count) = _
+    unfold sabs
+    rw [p3]
+    split <;> simp_all
+  refine ⟨?_, ?_, p3, hcount⟩
+  · apply seginv_set inv _ hi _ _ p1
+    · intro k' hk'
+      rw [p2 k'] at hk'
+      by_cases h : k' = k
+      · rw [h]; rfl
+      · rw [if_neg h] at hk'; exact inv.home _ hi k' hk'
+    · refine hcount.trans ?_
+      unfold sabs
+      split at p4 <;> simp_all <;> omega
+  · intro k'
+    show sabs H { segs := m.segs.setIfInBounds (SegMap.segOf H m k) _, count := _ } k' = _
+    rw [sabs_set m _ hi]
+    by_cases hk' : k' = k
+    · rw [if_pos hk', hk', if_pos rfl, p2 k, if_pos rfl]
+    · rw [if_neg hk']
+      split
+      · rename_i h
+        rw [p2 k', if_neg hk']
+        unfold sabs; rw [h]
+      · rfl
+
+
+/-! ### SetWithCap -/
+
+theorem exists_key_of_size_pos {idx : Nat → Nat → Nat} {s : UMap V} (inv : Inv idx s) (h : 0 < s.size) :
+    ∃ k, abs s k ≠ none := by
+  by_cases hz : s.zero.isSome
+  · refine ⟨0, ?_⟩
+    simp only [abs, if_true]
+    intro h0; rw [h0] at hz; cases hz
+  · have hsz := inv.size_eq
+    rw [if_neg hz] at hsz
+    have hpos : 0 < occ s.data := by omega
+    unfold occ at hpos
+    rw [Array.countP_pos_iff] at hpos
+    obtain ⟨x, hx, hx0⟩ := hpos
+    obtain ⟨p, hp, hxp⟩ := Array.mem_iff_getElem.mp hx
+    have hk : x.1 ≠ 0 := by simpa using hx0
+    refine ⟨x.1, ?_⟩
+    simp only [abs, hk, if_false]
+    intro hnone
+    rw [lookup_eq_none_iff] at hnone
+    exact hnone p hp (by unfold key; rw [rd_eq_getElem _ p hp, hxp])
+
+theorem size_zero_of_empty {idx : Nat → Nat → Nat} {s : UMap V} (inv : Inv idx s)
+    (h : ∀ k, abs s k = none) : s.size = 0 := by
+  apply Classical.byContradiction
+  intro hne
+  obtain ⟨k, hk⟩ := exists_key_of_size_pos inv (by omega)
+  exact hk (h k)
+
+/-- a table whose only key is `k` has at most one entry -/
+theorem size_le_one_of_only {idx : Nat → Nat → Nat} (hidx : IdxOk idx) {s : UMap V} (inv : Inv idx s) (k : Nat)
+    (h : ∀ k', abs s k' ≠ none → k' = k) : s.size ≤ 1 := by
+  obtain ⟨d1, d2, _, d4⟩ := del_spec hidx inv k
+  have : (s.del idx k).1.size = 0 := by
+    apply size_zero_of_empty d1
+    intro k'
+    rw [d2 k']
+    by_cases hk : k' = k
+    · rw [if_pos hk]
+    · rw [if_neg hk]
+      apply Classical.byContradiction
+      intro hne; exact hk (h k' hne)
+  split at d4 <;> omega
+
+/-- one eviction call on segment `j`, as done by `SetWithCap` -/
+def evictSeg (H : Hashes) (m : SegMap V) (j offset n skip : Nat) : SegMap V :=
+  { segs := m.segs.setIfInBounds j ((m.segAt j).evictKeysAt H.idx offset n skip).1
+    count := m.count - (((m.segAt j).evictKeysAt H.idx offset n skip).2 : Nat) }
+
+def evictCnt (H : Hashes) (m : SegMap V) (j offset n skip : Nat) : Nat :=
+  ((m.segAt j).evictKeysAt H.idx offset n skip).2
+
+theorem spill_succ (H : Hashes) (k : Nat) (cap : Int) (si offset : Nat) (m : SegMap V) (f i deficit : Nat) :
+    SegMap.spill H k cap si offset m (f + 1) i deficit =
+      if i < m.segs.size ∧ deficit > 0 then
+        if m.count ≤ cap then m else
+          SegMap.spill H k cap si offset (evictSeg H m ((si + i) % m.segs.size) offset deficit k) f (i + 1)
+            (deficit - evictCnt H m ((si + i) % m.segs.size) offset deficit k)
+      else m := rfl
+
+theorem evictSeg_size (H : Hashes) (m : SegMap V) (j offset n skip : Nat) :
+    (evictSeg H m j offset n skip).segs.size = m.segs.size := by simp [evictSeg]
+
+theorem evictSeg_count (H : Hashes) (m : SegMap V) (j offset n skip : Nat) :
+    (evictSeg H m j offset n skip).count = m.count - (evictCnt H m j offset n skip : Nat) := rfl
+
+theorem seg_evict_step {H : Hashes} (hH : HashOk H) {m : SegMap V} (inv : SegInv H m) (j : Nat)
+    (hj : j < m.segs.size) (offset n skip : Nat) :
+    SegInv H (evictSeg H m j offset n skip) ∧
+    (∀ k', sabs H (evictSeg H m j offset n skip) k' = sabs H m k' ∨
+      (sabs H (evictSeg H m j offset n skip) k' = none ∧ k' ≠ skip)) := by
+  obtain ⟨e1, e2, e3, e4, e5⟩ := evict_spec hH.idx (inv.segs j hj) offset n skip
+  refine ⟨?_, ?_⟩
+  · apply seginv_set inv j hj _ _ e1
+    · intro k' hk'
+      rcases e5 k' with h | h
+      · rw [h] at hk'; exact inv.home j hj k' hk'
+      · exact absurd h.1 hk'
+    · omega
+  · intro k'
+    unfold evictSeg
+    rw [sabs_set m j hj]
+    split
+    · rename_i hh
+      rcases e5 k' with h | h
+      · left; rw [h]; unfold sabs; rw [hh]
+      · right; exact h
+    · left; rfl
+
+/-- the spill loop only evicts: invariant kept, counter never grows, the key being written is never touched. -/
+theorem spill_spec {H : Hashes} (hH : HashOk H) (k : Nat) (cap : Int) (si offset : Nat) :
+    ∀ (f : Nat) (m : SegMap V) (i deficit : Nat), SegInv H m →
+      SegInv H (SegMap.spill H k cap si offset m f i deficit) ∧
+      (SegMap.spill H k cap si offset m f i deficit).count ≤ m.count ∧
+      (SegMap.spill H k cap si offset m f i deficit).segs.size = m.segs.size ∧
+      ∀ k', sabs H (SegMap.spill H k cap si offset m f i deficit) k' = sabs H m k' ∨
+        (sabs H (SegMap.spill H k cap si offset m f i deficit) k' = none ∧ k' ≠ k) := by
+  intro f
+  induction f with
+  | zero => intro m i deficit inv; exact ⟨inv, Int.le_refl _, rfl, fun _ => Or.inl rfl⟩
+  | succ f ih =>
+    intro m i deficit inv
+    rw [spill_succ]
+    by_cases hc : i < m.segs.size ∧ deficit > 0
+    · rw [if_pos hc]
+      by_cases hcap : m.count ≤ cap
+      · rw [if_pos hcap]; exact ⟨inv, Int.le_refl _, rfl, fun _ => Or.inl rfl⟩
+      · rw [if_neg hcap]
+        have hni : (si + i) % m.segs.size < m.segs.size := Nat.mod_lt _ inv.nseg
+        obtain ⟨s1, s2⟩ := seg_evict_step hH inv _ hni offset deficit k
+        obtain ⟨h1, h2, h3, h4⟩ := ih _ (i + 1)
+          (deficit - evictCnt H m ((si + i) % m.segs.size) offset deficit k) s1
+        refine ⟨h1, ?_, by rw [h3, evictSeg_size], ?_⟩
+        · rw [evictSeg_count] at h2
+          have : (0 : Int) ≤ (evictCnt H m ((si + i) % m.segs.size) offset deficit k : Nat) := Int.natCast_nonneg _
+          omega
+        · intro k'
+          rcases h4 k' with h | h
+          · rcases s2 k' with h' | h'
+            · left; rw [h, h']
+            · right; rw [h]; exact h'
+          · right; exact h
+    · rw [if_neg hc]; exact ⟨inv, Int.le_refl _, rfl, fun _ => Or.inl rfl⟩
+
+theorem add_mod_cases (a b n : Nat) (ha : a < n) (hb : b < n) :
+    (a + b) % n = if a + b < n then a + b else a + b - n := by
+  split
+  · rename_i h; exact Nat.mod_eq_of_lt h
+  · rename_i h
+    rw [Nat.mod_eq_sub_mod (by omega), Nat.mod_eq_of_lt (by omega)]
+
+/-- the spill loop finds a victim if any other segment holds an entry -/
+theorem spill_progress {H : Hashes} (hH : HashOk H) (k : Nat) (cap : Int) (si offset : Nat) :
+    ∀ (f : Nat) (m : SegMap V) (i deficit : Nat), SegInv H m → SegMap.segOf H m k = si →
+      0 < deficit → cap < m.count → m.segs.size ≤ f + i → 1 ≤ i →
+      (∀ i', 1 ≤ i' → i' < i → (m.segAt ((si + i') % m.segs.size)).size = 0) →
+      (SegMap.spill H k cap si offset m f i deficit).count < m.count ∨
+      (∀ i', 1 ≤ i' → i' < m.segs.size → (m.segAt ((si + i') % m.segs.size)).size = 0) := by
+  intro f
+  induction f with
+  | zero =>
+    intro m i deficit inv hsi hd hcap hf hi hz
+    right; intro i' h1 h2; exact hz i' h1 (by omega)
+  | succ f ih =>
+    intro m i deficit inv hsi hd hcap hf hi hz
+    rw [spill_succ]
+    by_cases hc : i < m.segs.size ∧ deficit > 0
+    · rw [if_pos hc, if_neg (by omega)]
+      have hsin : si < m.segs.size := by rw [← hsi]; exact segOf_lt hH inv k
+      have hni : (si + i) % m.segs.size < m.segs.size := Nat.mod_lt _ inv.nseg
+      have hne : (si + i) % m.segs.size ≠ si := by
+        rw [add_mod_cases si i _ hsin hc.1]; split <;> omega
+      obtain ⟨s1, s2⟩ := seg_evict_step hH inv _ hni offset deficit k
+      obtain ⟨e1, e2, e3, e4, e5⟩ := evict_spec hH.idx (inv.segs _ hni) offset deficit k
+      by_cases hd0 : evictCnt H m ((si + i) % m.segs.size) offset deficit k = 0
+      · -- nothing evicted: the segment was empty and nothing changed
+        have hsame := e4 hd0
+        have hempty : (m.segAt ((si + i) % m.segs.size)).size = 0 := by
+          apply Classical.byContradiction
+          intro hpos
+          obtain ⟨k', hk'⟩ := exists_key_of_size_pos (inv.segs _ hni) (by omega)
+          have hhome := home' inv _ hni k' hk'
+          have hkk : k' ≠ k := by intro h; rw [h, hsi] at hhome; exact hne hhome.symm
+          have := evict_progress hH.idx (inv.segs _ hni) offset deficit k hd k' hkk hk'
+          unfold evictCnt at hd0
+          omega
+        have hseg : ∀ j, (evictSeg H m ((si + i) % m.segs.size) offset deficit k).segAt j = m.segAt j := by
+          intro j
+          unfold evictSeg
+          rw [segAt_set]
+          split
+          · rename_i h; rw [hsame, h.1]
+          · rfl
+        have hcnt : (evictSeg H m ((si + i) % m.segs.size) offset deficit k).count = m.count := by
+          rw [evictSeg_count, hd0]; simp
+        have := ih _ (i + 1) (deficit - evictCnt H m ((si + i) % m.segs.size) offset deficit k)
+          s1 (by unfold SegMap.segOf at hsi ⊢; rw [evictSeg_size]; exact hsi) (by omega)
+          (by rw [hcnt]; exact hcap) (by rw [evictSeg_size]; omega) (by omega)
+          (by
+            intro i' h1 h2
+            rw [hseg, evictSeg_size]
+            by_cases hlt : i' < i
+            · exact hz i' h1 hlt
+            · have : i' = i := by omega
+              rw [this]; exact hempty)
+        rcases this with h | h
+        · left; rw [hcnt] at h; exact h
+        · right
+          intro i' h1 h2
+          have := h i' h1 (by rw [evictSeg_size]; exact h2)
+          rw [hseg, evictSeg_size] at this
+          exact this
+      · left
+        obtain ⟨_, h2, _⟩ := spill_spec hH k cap si offset f _ (i + 1)
+          (deficit - evictCnt H m ((si + i) % m.segs.size) offset deficit k) s1
+        rw [evictSeg_count] at h2
+        omega
+    · rw [if_neg hc]
+      right; intro i' h1 h2; exact hz i' h1 (by omega)
+
+
+theorem sum_zero (l : List (UMap V)) (hz : ∀ j (hj : j < l.length), l[j].size = 0) :
+    (l.map (fun s => (s.size : Int))).sum = 0 := by
+  induction l with
+  | nil => rfl
+  | cons x t ih =>
+    simp only [List.map_cons, List.sum_cons]
+    have h0 := hz 0 (by simp)
+    simp only [List.getElem_cons_zero] at h0
+    rw [ih (fun j hj => by have h := hz (j + 1) (by simp; omega); rw [List.getElem_cons_succ] at h; exact h), h0]; rfl
+
+theorem sum_single (l : List (UMap V)) (i : Nat) (hi : i < l.length)
+    (hz : ∀ j (hj : j < l.length), j ≠ i → l[j].size = 0) :
+    (l.map (fun s => (s.size : Int))).sum = (l[i].size : Int) := by
+  induction l generalizing i with
+  | nil => simp at hi
+  | cons x t ih =>
+    simp only [List.map_cons, List.sum_cons]
+    cases i with
+    | zero =>
+      rw [sum_zero t (fun j hj => by have h := hz (j + 1) (by simp; omega) (by omega); rw [List.getElem_cons_succ] at h; exact h)]
+      simp
+    | succ i =>
+      have h0 := hz 0 (by simp) (by omega)
+      simp only [List.getElem_cons_zero] at h0
+      rw [ih i (by simpa using hi) (fun j hj hne => by have h := hz (j + 1) (by simp; omega) (by omega); rw [List.getElem_cons_succ] at h; exact h), h0]
+      simp
+
+theorem total_eq_single (m : SegMap V) (si : Nat) (hsi : si < m.segs.size)
+    (hz : ∀ i', 1 ≤ i' → i' < m.segs.size → (m.segAt ((si + i') % m.segs.size)).size = 0) :
+    total m = ((m.segAt si).size : Int) := by
+  unfold total
+  rw [sum_single m.segs.toList si (by simpa using hsi)]
+  · rw [segAt_eq_getElem m si hsi]; simp
+  · intro j hj hne
+    simp only [Array.length_toList] at hj
+    simp only [Array.getElem_toList]
+    rw [← segAt_eq_getElem m j hj]
+    by_cases hlt : si < j
+    · have := hz (j - si) (by omega) (by omega)
+      rw [add_mod_cases si (j - si) _ hsi (by omega)] at this
+      rw [if_pos (by omega)] at this
+      rw [show si + (j - si) = j by omega] at this
+      exact this
+    · have := hz (j + m.segs.size - si) (by omega) (by omega)
+      rw [add_mod_cases si (j + m.segs.size - si) _ hsi (by omega)] at this
+      rw [if_neg (by omega)] at this
+      rw [show si + (j + m.segs.size - si) - m.segs.size = j by omega] at this
+      exact this
+
+theorem set_set (a : Array (UMap V)) (i : Nat) (x y : UMap V) :
+    (a.setIfInBounds i x).setIfInBounds i y = a.setIfInBounds i y := by
+  apply Array.ext_getElem?
+  intro j
+  simp only [Array.getElem?_setIfInBounds, Array.size_setIfInBounds]
+  split <;> rfl
+
+/-- `SetWithCap` is `Set` followed by the toll -/
+theorem setWithCap_eq {H : Hashes} (m : SegMap V) (k : Nat) (v : V) (cap : Int)
+    (hsi : SegMap.segOf H m k < m.segs.size) :
+    m.setWithCap H k v cap =
+      if (m.set H k v).count > cap then
+        if 2 - evictCnt H (m.set H k v) (SegMap.segOf H m k) (H.off k) 2 k = 0 then
+          evictSeg H (m.set H k v) (SegMap.segOf H m k) (H.off k) 2 k
+        else
+          SegMap.spill H k cap (SegMap.segOf H m k) (H.off k)
+            (evictSeg H (m.set H k v) (SegMap.segOf H m k) (H.off k) 2 k)
+            m.segs.size 1 (2 - evictCnt H (m.set H k v) (SegMap.segOf H m k) (H.off k) 2 k)
+      else m.set H k v := by
+  have hseg : (m.set H k v).segAt (SegMap.segOf H m k) = (m.segAt (SegMap.segOf H m k)).put H.idx k v := by
+    unfold SegMap.set
+    rw [segAt_set, if_pos ⟨rfl, hsi⟩]
+  unfold SegMap.setWithCap evictSeg evictCnt
+  rw [hseg]
+  simp only [SegMap.set, set_set, Array.size_setIfInBounds]
+
+/-- **`SetWithCap`**: the written key is stored and is never a victim; every
+other key keeps its value or is evicted; executed alone, the counter ends at
+or below `max cap (count before)`. -/
+theorem setWithCap_spec {H : Hashes} (hH : HashOk H) {m : SegMap V} (inv : SegInv H m)
+    (k : Nat) (v : V) (cap : Int) :
+    SegInv H (m.setWithCap H k v cap) ∧ sabs H (m.setWithCap H k v cap) k = some v ∧
+    (∀ k', k' ≠ k → sabs H (m.setWithCap H k v cap) k' = sabs H m k' ∨
+      sabs H (m.setWithCap H k v cap) k' = none) ∧
+    (1 ≤ cap → (m.setWithCap H k v cap).count ≤ max cap m.count) := by
+  have hsi := segOf_lt hH inv k
+  obtain ⟨i0, a0, c0⟩ := seg_set_spec hH inv k v
+  have hc0 : (m.set H k v).count ≤ m.count + 1 := by rw [c0]; split <;> omega
+  have hsz0 : (m.set H k v).segs.size = m.segs.size := by simp [SegMap.set]
+  have hsi0 : SegMap.segOf H m k < (m.set H k v).segs.size := by rw [hsz0]; exact hsi
+  have hsk : sabs H (m.set H k v) k = some v := by rw [a0 k, if_pos rfl]
+  have hother : ∀ k', k' ≠ k → sabs H (m.set H k v) k' = sabs H m k' := by
+    intro k' h; rw [a0 k', if_neg h]
+  rw [setWithCap_eq m k v cap hsi]
+  by_cases hover : (m.set H k v).count > cap
+  · rw [if_pos hover]
+    obtain ⟨i1, a1⟩ := seg_evict_step hH i0 _ hsi0 (H.off k) 2 k
+    have hk1 : sabs H (evictSeg H (m.set H k v) (SegMap.segOf H m k) (H.off k) 2 k) k = some v := by
+      rcases a1 k with h | h
+      · rw [h, hsk]
+      · exact absurd rfl h.2
+    have ho1 : ∀ k', k' ≠ k → sabs H (evictSeg H (m.set H k v) (SegMap.segOf H m k) (H.off k) 2 k) k' = sabs H m k' ∨
+        sabs H (evictSeg H (m.set H k v) (SegMap.segOf H m k) (H.off k) 2 k) k' = none := by
+      intro k' hk'
+      rcases a1 k' with h | h
+      · left; rw [h, hother k' hk']
+      · right; exact h.1
+    have hcnt1 := evictSeg_count H (m.set H k v) (SegMap.segOf H m k) (H.off k) 2 k
+    by_cases hdef : 2 - evictCnt H (m.set H k v) (SegMap.segOf H m k) (H.off k) 2 k = 0
+    · rw [if_pos hdef]
+      refine ⟨i1, hk1, ho1, ?_⟩
+      intro _
+      rw [hcnt1]
+      omega
+    · rw [if_neg hdef]
+      obtain ⟨i2, c2, _, a2⟩ := spill_spec hH k cap (SegMap.segOf H m k) (H.off k) m.segs.size
+        (evictSeg H (m.set H k v) (SegMap.segOf H m k) (H.off k) 2 k) 1
+        (2 - evictCnt H (m.set H k v) (SegMap.segOf H m k) (H.off k) 2 k) i1
+      refine ⟨i2, ?_, ?_, ?_⟩
+      · rcases a2 k with h | h
+        · rw [h, hk1]
+        · exact absurd rfl h.2
+      · intro k' hk'
+        rcases a2 k' with h | h
+        · rw [h]; exact ho1 k' hk'
+        · right; exact h.1
+      · intro hcap
+        by_cases hd1 : 1 ≤ evictCnt H (m.set H k v) (SegMap.segOf H m k) (H.off k) 2 k
+        · rw [hcnt1] at c2; omega
+        · -- own segment yielded nothing: the spill loop must find a victim
+          have hd0 : evictCnt H (m.set H k v) (SegMap.segOf H m k) (H.off k) 2 k = 0 := by omega
+          have hcnt : (evictSeg H (m.set H k v) (SegMap.segOf H m k) (H.off k) 2 k).count = (m.set H k v).count := by
+            rw [hcnt1, hd0]; simp
+          have hszE := evictSeg_size H (m.set H k v) (SegMap.segOf H m k) (H.off k) 2 k
+          have P := spill_progress hH k cap (SegMap.segOf H m k) (H.off k) m.segs.size
+            (evictSeg H (m.set H k v) (SegMap.segOf H m k) (H.off k) 2 k) 1
+            (2 - evictCnt H (m.set H k v) (SegMap.segOf H m k) (H.off k) 2 k) i1
+            (by show H.seg (evictSeg H (m.set H k v) (SegMap.segOf H m k) (H.off k) 2 k).segs.size k = H.seg m.segs.size k; rw [hszE, hsz0]) (by omega) (by rw [hcnt]; exact hover)
+            (by rw [hszE, hsz0]; omega) (Nat.le_refl _) (by intro i' h1 h2; omega)
+          rcases P with h | h
+          · rw [hcnt] at h; omega
+          · exfalso
+            have htot := total_eq_single _ (SegMap.segOf H m k) (by rw [hszE]; exact hsi0) h
+            rw [← i1.count, hcnt] at htot
+            -- the own segment holds only k
+            have hcomp := evict_complete hH.idx (i0.segs _ hsi0) (H.off k) 2 k (by unfold evictCnt at hd0; omega)
+            have hle := size_le_one_of_only hH.idx (i1.segs _ (by rw [hszE]; exact hsi0)) k (by
+              intro k' hk'
+              apply hcomp k'
+              unfold evictSeg at hk'
+              rw [segAt_set, if_pos ⟨rfl, hsi0⟩] at hk'
+              exact hk')
+            omega
+  · rw [if_neg hover]
+    refine ⟨i0, hsk, fun k' hk' => Or.inl (hother k' hk'), ?_⟩
+    intro _; omega
+
+
+/-! ### reachable entries, construction -/
+
+theorem umap_toList_length {idx : Nat → Nat → Nat} {s : UMap V} (inv : Inv idx s) : s.toList.length = s.size := by
+  unfold UMap.toList
+  rw [List.length_append, inv.size_eq]
+  have : (s.data.toList.filter (fun p => p.1 ≠ 0)).length = occ s.data := by
+    unfold occ
+    rw [← Array.countP_toList, List.countP_eq_length_filter]
+    congr 1
+    apply List.filter_congr
+    intro x _
+    by_cases hx : x.1 = 0 <;> simp [hx]
+  rw [this]
+  cases s.zero <;> simp <;> omega
+
+theorem flatMap_length (l : List (UMap V)) (h : ∀ s ∈ l, s.toList.length = s.size) :
+    ((l.flatMap UMap.toList).length : Int) = (l.map (fun s => (s.size : Int))).sum := by
+  induction l with
+  | nil => rfl
+  | cons x t ih =>
+    simp only [List.flatMap_cons, List.length_append, List.map_cons, List.sum_cons]
+    rw [← ih (fun s hs => h s (List.mem_cons_of_mem _ hs)), h x (List.mem_cons_self ..)]
+    omega
+
+/-- **Quiescent length.** The counter equals the number of entries iteration reaches. -/
+theorem len_eq_reachable {H : Hashes} {m : SegMap V} (inv : SegInv H m) : m.len = (m.reachable : Int) := by
+  unfold SegMap.len SegMap.reachable SegMap.toList
+  rw [inv.count, flatMap_length]
+  · rfl
+  · intro s hs
+    obtain ⟨i, hi, rfl⟩ := List.mem_iff_getElem.mp hs
+    simp only [Array.length_toList] at hi
+    simp only [Array.getElem_toList]
+    rw [← segAt_eq_getElem m i hi]
+    exact umap_toList_length (inv.segs i hi)
+
+theorem segmap_new_spec (H : Hashes) (pow cap : Nat) :
+    SegInv H (SegMap.new pow cap : SegMap V) ∧ (∀ k, sabs H (SegMap.new pow cap : SegMap V) k = none) ∧
+    (SegMap.new pow cap : SegMap V).count = 0 := by
+  generalize hp : (if pow < 4 then 4 else if pow > 8 then 8 else pow) = p
+  generalize hsc : (if cap / 2 ^ p < 8 then 8 else cap / 2 ^ p) = sc
+  have hnew : (SegMap.new pow cap : SegMap V) = { segs := Array.replicate (2 ^ p) (UMap.new sc), count := 0 } := by
+    unfold SegMap.new; simp only [hp, hsc]
+  rw [hnew]
+  have hseg : ∀ j, SegMap.segAt ({ segs := Array.replicate (2 ^ p) (UMap.new sc), count := 0 } : SegMap V) j =
+      UMap.new sc ∨ SegMap.segAt ({ segs := Array.replicate (2 ^ p) (UMap.new sc), count := 0 } : SegMap V) j = default := by
+    intro j
+    simp only [SegMap.segAt, Array.getD_eq_getD_getElem?, Array.getElem?_replicate]
+    split
+    · left; rfl
+    · right; rfl
+  have hsegin : ∀ j, j < 2 ^ p → SegMap.segAt ({ segs := Array.replicate (2 ^ p) (UMap.new sc), count := 0 } : SegMap V) j =
+      UMap.new sc := by
+    intro j hj
+    simp only [SegMap.segAt, Array.getD_eq_getD_getElem?, Array.getElem?_replicate, hj, if_true, Option.getD_some]
+  obtain ⟨n1, n2, n3⟩ := new_spec (V := V) H.idx sc
+  refine ⟨⟨by simp; exact Nat.two_pow_pos _, ?_, ?_, ?_⟩, ?_, rfl⟩
+  · intro i hi
+    rw [hsegin i (by simpa using hi)]; exact n1
+  · intro i hi k hk
+    rw [hsegin i (by simpa using hi), n2 k] at hk
+    exact absurd rfl hk
+  · show (0 : Int) = total _
+    unfold total
+    rw [sum_zero]
+    intro j hj
+    simp only [Array.toList_replicate, List.getElem_replicate]
+    exact n3
+  · intro k
+    unfold sabs
+    rcases hseg (SegMap.segOf H ({ segs := Array.replicate (2 ^ p) (UMap.new sc), count := 0 } : SegMap V) k) with h | h
+    · rw [h]; exact n2 k
+    · rw [h]
+      show abs (default : UMap V) k = none
+      unfold abs
+      split
+      · rfl
+      · rw [lookup_eq_none_iff]; intro p hp
+        have h0 : (default : UMap V).data.size = 0 := rfl
+        omega
+
+/-! ### cache.Cache -/
+
+variable [DecidableEq V]
+
+/-- **`CompareAndSwap`** acts exactly when the identical value is current. -/
+theorem cas_spec {H : Hashes} (hH : HashOk H) {c : Cache V} (inv : SegInv H c.data) (k : Nat) (old new : V) :
+    SegInv H (c.compareAndSwap H k old new).1.data ∧
+    ((c.compareAndSwap H k old new).2 = true ↔ sabs H c.data k = some old) ∧
+    ((c.compareAndSwap H k old new).2 = true →
+      (∀ k', sabs H (c.compareAndSwap H k old new).1.data k' = if k' = k then some new else sabs H c.data k') ∧
+      (c.compareAndSwap H k old new).1.data.count = c.data.count) ∧
+    ((c.compareAndSwap H k old new).2 = false → (c.compareAndSwap H k old new).1 = c) ∧
+    (c.compareAndSwap H k old new).1.maxSize = c.maxSize := by
+  have hi := segOf_lt hH inv k
+  have hget := get_eq_abs hH.idx (inv.segs _ hi) k
+  unfold Cache.compareAndSwap
+  simp only
+  have hs : sabs H c.data k = abs (c.data.segAt (SegMap.segOf H c.data k)) k := rfl
+  rw [hs, ← hget]
+  cases hg : (c.data.segAt (SegMap.segOf H c.data k)).get H.idx k with
+  | none => simp [inv]
+  | some cur =>
+    simp only
+    by_cases hc : cur = old
+    · rw [if_pos hc]
+      obtain ⟨p1, p2, p3⟩ := put_spec hH.idx (inv.segs _ hi) k new
+      have hsome : (abs (c.data.segAt (SegMap.segOf H c.data k)) k).isSome = true := by
+        rw [← hget, hg]; rfl
+      rw [hsome] at p3
+      simp only [if_true, Nat.add_zero] at p3
+      refine ⟨?_, by simp [hc], ?_, by simp, rfl⟩
+      · apply seginv_set inv _ hi _ _ p1
+        · intro k' hk'
+          rw [p2 k'] at hk'
+          by_cases h : k' = k
+          · rw [h]; rfl
+          · rw [if_neg h] at hk'; exact inv.home _ hi k' hk'
+        · rw [p3]; omega
+      · intro _
+        refine ⟨?_, rfl⟩
+        intro k'
+        show sabs H { segs := c.data.segs.setIfInBounds (SegMap.segOf H c.data k) _, count := _ } k' = _
+        rw [sabs_set c.data _ hi]
+        by_cases hk' : k' = k
+        · rw [if_pos hk', hk', if_pos rfl, p2 k, if_pos rfl]
+        · rw [if_neg hk']
+          split
+          · rename_i h
+            rw [p2 k', if_neg hk']
+            unfold sabs; rw [h]
+          · rfl
+    · rw [if_neg hc]
+      refine ⟨inv, ?_, by simp, by simp, rfl⟩
+      simp only [Bool.false_eq_true, Option.some.injEq, false_iff]
+      exact hc
+
+/-- **`CompareAndDelete`** removes exactly when the identical value is current. -/
+theorem cad_spec {H : Hashes} (hH : HashOk H) {c : Cache V} (inv : SegInv H c.data) (k : Nat) (old : V) :
+    SegInv H (c.compareAndDelete H k old).1.data ∧
+    ((c.compareAndDelete H k old).2 = true ↔ sabs H c.data k = some old) ∧
+    ((c.compareAndDelete H k old).2 = true →
+      (∀ k', sabs H (c.compareAndDelete H k old).1.data k' = if k' = k then none else sabs H c.data k') ∧
+      (c.compareAndDelete H k old).1.data.count = c.data.count - 1) ∧
+    ((c.compareAndDelete H k old).2 = false → (c.compareAndDelete H k old).1 = c) ∧
+    (c.compareAndDelete H k old).1.maxSize = c.maxSize := by
+  have hi := segOf_lt hH inv k
+  have hget := get_eq_abs hH.idx (inv.segs _ hi) k
+  unfold Cache.compareAndDelete
+  simp only
+  have hs : sabs H c.data k = abs (c.data.segAt (SegMap.segOf H c.data k)) k := rfl
+  rw [hs, ← hget]
+  cases hg : (c.data.segAt (SegMap.segOf H c.data k)).get H.idx k with
+  | none => simp [inv]
+  | some cur =>
+    simp only
+    by_cases hc : cur = old
+    · rw [if_pos hc]
+      obtain ⟨p1, p2, p3, p4⟩ := del_spec hH.idx (inv.segs _ hi) k
+      have hsome : (abs (c.data.segAt (SegMap.segOf H c.data k)) k).isSome = true := by
+        rw [← hget, hg]; rfl
+      rw [hsome] at p3 p4
+      simp only [if_true] at p4
+      rw [if_pos p3]
+      refine ⟨?_, by simp [hc], ?_, by simp, rfl⟩
+      · apply seginv_set inv _ hi _ _ p1
+        · intro k' hk'
+          rw [p2 k'] at hk'
+          by_cases h : k' = k
+          · rw [h]; rfl
+          · rw [if_neg h] at hk'; exact inv.home _ hi k' hk'
+        · omega
+      · intro _
+        refine ⟨?_, rfl⟩
+        intro k'
+        show sabs H { segs := c.data.segs.setIfInBounds (SegMap.segOf H c.data k) _, count := _ } k' = _
+        rw [sabs_set c.data _ hi]
+        by_cases hk' : k' = k
+        · rw [if_pos hk', hk', if_pos rfl, p2 k, if_pos rfl]
+        · rw [if_neg hk']
+          split
+          · rename_i h
+            rw [p2 k', if_neg hk']
+            unfold sabs; rw [h]
+          · rfl
+    · rw [if_neg hc]
+      refine ⟨inv, ?_, by simp, by simp, rfl⟩
+      simp only [Bool.false_eq_true, Option.some.injEq, false_iff]
+      exact hc
 
 end SdnsVerif.Lemmas.UMap
